@@ -133,7 +133,9 @@ def configs(tier, seed):
     cs = [dict(base), dict(base, family='twomode', blob='none', n_batch=12, n_live=50, prior_identity=True, lik_inplace=True),
           dict(base, n_networks=1, n_live=80, family='periodic', periodic=[0], n_dim=3, blob='two', discard_at_end=True),
           # a likelihood plateau (-inf half space) during exploration, and non-nested bounds whose transfer candidates are used up over several batches
-          dict(base, family='halfspace', n_dim=2, blob='float', n_batch=10, n_live=50), dict(base, family='funnel', n_dim=2, blob='vec3', n_batch=10, n_live=60, n_eff=200)]
+          dict(base, family='halfspace', n_dim=2, blob='float', n_batch=10, n_live=50), dict(base, family='funnel', n_dim=2, blob='vec3', n_batch=10, n_live=60, n_eff=200),
+          # tiny batches: the transfer candidates of a new bound are used up over many batches (and many checkpoint updates)
+          dict(base, family='twomode', n_dim=2, blob='two', n_batch=2, n_live=40, n_update=10, n_eff=150, n_shell=5)]
     if tier == 'thorough':
         cs += [dict(base, family='halfspace', n_dim=3, blob='vec3', n_batch=30), dict(base, family='funnel', n_dim=3, n_live=100, n_batch=60, blob='int'),
                dict(base, n_live=30, n_batch=6, n_update=8, n_eff=100, blob='none', prior_identity=True, lik_inplace=True)]
